@@ -26,7 +26,7 @@ for d in sorted(glob.glob(os.path.join(ROOT, "seeded", "*"))):
         if res and "suite" not in res and prevv.get("existing_suite_with_patch") in ("pass",):
             # demo-only re-verification on a later HEAD: keep the earlier full-suite result
             prevv.update({"demo_on_unmodified_tree": res.get("demo_unmodified"), "patch_applies": res.get("apply"), "builds": res.get("build"),
-                          "demo_with_patch": res.get("demo_patched"), "demo_reverified_at_repo_head": head})
+                          "demo_with_patch": res.get("demo_patched"), "demo_reverified_at_repo_head": prevv.get("demo_reverified_at_repo_head", head)})
             meta["verified_in_scratch_worktree"] = prevv
         elif res:
             meta["verified_in_scratch_worktree"] = {
